@@ -8,6 +8,7 @@ import PasfmtModel.Model.Parser
 import PasfmtModel.Model.IO
 import PasfmtModel.Model.Consolidators
 import PasfmtModel.Model.ParserFull
+import PasfmtModel.Model.WrapStage
 
 namespace Pasfmt
 
@@ -90,6 +91,75 @@ def showChanged (before after : List Bytes) : String :=
 
 def bool01 (b : Bool) : String := if b then "1" else "0"
 
+/-! ### solutions of the wrapper (hook record): `ind.cont[d;d;…]`, `d` = `B<n>` or `C`, then `(<line>=<sol>,…)` -/
+
+def takeNat (cs : List Char) : Option (Nat × List Char) :=
+  let ds := cs.takeWhile Char.isDigit
+  if ds.isEmpty then none else (String.ofList ds).toNat?.map (·, cs.dropWhile Char.isDigit)
+
+mutual
+def parseSolGo : Nat → List Char → Option (Sol × List Char)
+  | 0, _ => none
+  | fuel + 1, cs =>
+    match takeNat cs with
+    | some (ind, '.' :: r1) =>
+      match takeNat r1 with
+      | some (cont, '[' :: r2) =>
+        match r2 with
+        | ']' :: r3 => some (.mk ind cont [], r3)
+        | _ =>
+          match parseDecsGo fuel r2 with
+          | some (ds, ']' :: r3) => some (.mk ind cont ds, r3)
+          | _ => none
+      | _ => none
+    | _ => none
+
+def parseDecsGo : Nat → List Char → Option (List (Dec × List (Nat × Sol)) × List Char)
+  | 0, _ => none
+  | fuel + 1, cs =>
+    let head : Option (Dec × List Char) :=
+      match cs with
+      | 'C' :: r => some (.cont, r)
+      | 'B' :: r => (takeNat r).map fun (n, r') => (.brk n, r')
+      | _ => none
+    match head with
+    | none => none
+    | some (d, r) =>
+      let kids : Option (List (Nat × Sol) × List Char) :=
+        match r with
+        | '(' :: r1 => parseKidsGo fuel r1
+        | _ => some ([], r)
+      match kids with
+      | none => none
+      | some (ks, r2) =>
+        match r2 with
+        | ';' :: r3 => (parseDecsGo fuel r3).map fun (ds, r4) => ((d, ks) :: ds, r4)
+        | _ => some ([(d, ks)], r2)
+
+def parseKidsGo : Nat → List Char → Option (List (Nat × Sol) × List Char)
+  | 0, _ => none
+  | fuel + 1, cs =>
+    match takeNat cs with
+    | some (li, '=' :: r1) =>
+      match parseSolGo fuel r1 with
+      | some (s, ',' :: r2) => (parseKidsGo fuel r2).map fun (ks, r3) => ((li, s) :: ks, r3)
+      | some (s, ')' :: r2) => some ([(li, s)], r2)
+      | _ => none
+    | _ => none
+end
+
+/-- one hook record `phase:line:solution` -/
+def parseSolRecord (s : String) : Option (Nat × Nat × Sol) :=
+  match s.splitOn ":" with
+  | [p, l, sol] => do
+    let p ← p.toNat?
+    let l ← l.toNat?
+    let cs := sol.toList
+    match parseSolGo (cs.length + 2) cs with
+    | some (x, []) => pure (p, l, x)
+    | _ => none
+  | _ => none
+
 /-- `ck`/`cl` fields: the three consolidators applied to the parser's own kinds and lines -/
 def showConsolidated (pkS plS : String) : String :=
   match (parseList pkS).mapM TokenType.ofRust, parseLines plS with
@@ -100,7 +170,8 @@ def showConsolidated (pkS plS : String) : String :=
   | _, _ => "ck=bad-record\tcl=bad-record\t"
 
 /-- the `fmt` stream: whole pipeline with the parser and wrapper outputs taken from the record -/
-def handleFmt (cfgS inpS kindsS linesS postS changedS alnumS cursorsS : String) (wf : Bool := false) (cons : String := "") : String :=
+def handleFmt (cfgS inpS kindsS linesS postS changedS alnumS cursorsS : String) (wf : Bool := false) (cons : String := "")
+    (solsS : Option String := none) : String :=
   match parseCfg cfgS, ofHex inpS, (parseList kindsS).mapM TokenType.ofRust, parseLines linesS,
         (parseList postS).mapM parseFmt, parseChanged changedS, (parseList alnumS).mapM ofHex,
         (parseList cursorsS).mapM String.toNat? with
@@ -119,6 +190,21 @@ def handleFmt (cfgS inpS kindsS linesS postS changedS alnumS cursorsS : String) 
       let (marks, lines', ft1) := preWrap O raw
       let out := formatTokens cfg O raw
       let ft2 := O.wrap cfg lines' ft1
+      -- the wrapper stage recomputed by the exact model from the solutions the search returned (hook record)
+      let ws : String := match solsS with
+        | none => ""
+        | some ss =>
+          match (parseList ss).mapM parseSolRecord with
+          | none => "wp=bad-record\twcn=bad-record\tsx=0\t"
+          | some recs =>
+            let solve : Nat → Nat → Option Sol := fun ph li => (recs.find? fun (p, l, _) => p == ph && l == li).map (·.2.2)
+            -- every recorded solution belongs to a line the model wraps in that phase (first phase: checked here)
+            let elig := firstPassLines lines'
+            let sx := recs.all fun (p, l, _) => p != 0 || elig.contains l
+            match wrapStage solve cfg lines' ft1 with
+            | none => "wp=model-none\twcn=model-none\tsx=" ++ bool01 sx ++ "\t"
+            | some m =>
+              s!"wp={showList (m.map fun t => showFmt t.fmt)}\twcn={showChanged (ft1.map (·.tok.content)) (m.map (·.tok.content))}\tsx={bool01 sx}\t"
       let wc := wrapFrameB ft1 ft2 && wrapContentB cfg ft1 ft2 && wrapIgnoredB ft1 ft2
       let ndOk := contentsNdB raw
       -- C02 contract (well-formed cases only): the windowed re-scan of the output gives back the emitted tokens
@@ -126,7 +212,7 @@ def handleFmt (cfgS inpS kindsS linesS postS changedS alnumS cursorsS : String) 
       let marksS := showList ((marks.zipIdx.filter (·.1)).map fun (_, i) => toString i)
       let pre := showList (ft1.map fun t => showFmt t.fmt)
       let prec := showChanged (raw.map (·.content)) (ft1.map (·.tok.content))
-      s!"{cons}marks={marksS}\tlv={showLines lines'}\tpre={pre}\tprec={prec}\tkr=1\twc={bool01 wc}\tnd={bool01 ndOk}\trx={bool01 rx}\tcur={showList ((trackCursors cfg.settings raw ft2 cursors).map fun o => match o with | some n => toString n | none => "underflow")}\tout={toHex out}\tinfo_sr={bool01 (safeRunAllGo false ft2)}\tinfo_sn={bool01 (noSafetyNetGo false ft2)}\tinfo_cn={bool01 (canonAll ft2)}\tinfo_nn={bool01 (noNlAll ft2)}\tinfo_nt={bool01 (noTabAll ft2)}"
+      s!"{cons}{ws}marks={marksS}\tlv={showLines lines'}\tpre={pre}\tprec={prec}\tkr=1\twc={bool01 wc}\tnd={bool01 ndOk}\trx={bool01 rx}\tcur={showList ((trackCursors cfg.settings raw ft2 cursors).map fun o => match o with | some n => toString n | none => "underflow")}\tout={toHex out}\tinfo_sr={bool01 (safeRunAllGo false ft2)}\tinfo_sn={bool01 (noSafetyNetGo false ft2)}\tinfo_cn={bool01 (canonAll ft2)}\tinfo_nn={bool01 (noNlAll ft2)}\tinfo_nt={bool01 (noTabAll ft2)}"
   | _, _, _, _, _, _, _, _ => "bad-record"
 
 def parseParent (s : String) : Option (Option LineParent) :=
@@ -288,6 +374,8 @@ def handleLine (line : String) : String :=
   | ["fmt", cfg, inp, kinds, lines, post, changed, alnum, cursors, wf] => handleFmt cfg inp kinds lines post changed alnum cursors (wf == "1")
   | ["fmt", cfg, inp, kinds, lines, post, changed, alnum, cursors, wf, pk, pl] =>
     handleFmt cfg inp kinds lines post changed alnum cursors (wf == "1") (showConsolidated pk pl)
+  | ["fmt", cfg, inp, kinds, lines, post, changed, alnum, cursors, wf, pk, pl, sols] =>
+    handleFmt cfg inp kinds lines post changed alnum cursors (wf == "1") (showConsolidated pk pl) (some sols)
   | ["parse", kinds, passesOps] => handleParse kinds passesOps
   | ["pfull", kinds, nl] => handlePfull kinds nl
   | ["io", mode, enc, content, header, fmtT, decT, encT] => handleIo mode enc content header fmtT decT encT
